@@ -151,10 +151,22 @@ def run(ctx, res):
         for rep in range(2 if ctx.tier == "quick" else 4):
             pop = corner_population(rnd, year, 10)
             if rep == 0:
-                # a family with ten children
-                big = popgen.household(rnd, "couple_kids", year)
-                while len([p for p in big if p["kind"]]) < 10:
-                    big = popgen.household(rnd, "couple_kids", year)
+                # families with eight to ten children (child discounts, sibling / multiple-birth bonuses), wages in the midijob band and above
+                extra = popgen.population(rnd, year, 3, templates=["couple_kids"], id_style="dense")
+                tries = 0
+                while max((sum(1 for q in extra if q["kind"] and q["hh_id"] == h) for h in {q["hh_id"] for q in extra}), default=0) < 8 and tries < 200:
+                    extra = popgen.population(rnd, year, 3, templates=["couple_kids"], id_style="dense")
+                    tries += 1
+                for q in extra:
+                    q["p_id"] += 500000
+                    q["hh_id"] += 500000
+                    for k2 in list(q):
+                        if k2.startswith("p_id_") and q[k2] >= 0:
+                            q[k2] += 500000
+                    if not q["kind"]:
+                        q["bruttolohn_m"] = rnd.choice([600.0, 1000.0, 1500.0, 1999.0, 2000.0, 4000.0])
+                        q["elterngeld_nettoeinkommen_vorjahr_m"] = rnd.choice([0.0, 2000.0, 2770.0, 9000.0, 1e6])
+                pop = pop + extra
             df = popgen.to_frame(pop)
             tg = None
             extra = [c for pair in CAPS for c in pair]
@@ -189,20 +201,23 @@ def run(ctx, res):
                             res.add_violation(f"cap:{paid}", f"{paid} = {float(outp[paid].iloc[i])} exceeds {cap} = {float(outp[cap].iloc[i])} on {impl.iso(o)} "
                                               f"(person {int(df['p_id'].iloc[i])})", dict(kind="cap", date=impl.iso(o), paid=paid, cap=cap), True)
                             break
-            # Elterngeld never exceeds its maximum plus bonuses
+            # Elterngeld never exceeds its maximum plus the sibling bonus on the maximum plus the multiple-birth bonus
             if "elterngeld_m" in outp.columns:
                 params, _ = impl.env(o)
                 eg = params.get("elterngeld", {})
-                mx = eg.get("max_betrag") or eg.get("höchstbetrag")
+                mx = eg.get("höchstbetrag")
                 if isinstance(mx, (int, float)):
-                    bonus = 0.0
-                    for key in ("geschwisterbonus_minimum", "mehrlingbonus"):
-                        if isinstance(eg.get(key), (int, float)):
-                            bonus += 10 * float(eg[key])
+                    sib = max(float(eg.get("geschwisterbonus_aufschlag", 0.0)) * float(mx), float(eg.get("geschwisterbonus_minimum", 0.0)))
+                    mb = float(eg.get("mehrlingbonus", 0.0))
+                    nm = outp["_elterngeld_anz_mehrlinge_fg"].to_numpy() if "_elterngeld_anz_mehrlinge_fg" in outp.columns else None
                     stats["caps_checked"] += len(df)
-                    if float(outp["elterngeld_m"].max()) > float(mx) * 1.1 + bonus + 1e-6:
-                        res.add_violation("cap:elterngeld_m", f"elterngeld_m = {float(outp['elterngeld_m'].max())} exceeds the maximum {mx} plus bonuses on {impl.iso(o)}",
-                                          dict(kind="cap", date=impl.iso(o), paid="elterngeld_m", maximum=mx), True)
+                    for i in range(len(df)):
+                        cap = float(mx) + sib + mb * (float(nm[i]) if nm is not None else 9.0) + 1.0
+                        if float(outp["elterngeld_m"].iloc[i]) > cap:
+                            res.add_violation("cap:elterngeld_m", f"elterngeld_m = {float(outp['elterngeld_m'].iloc[i])} exceeds maximum {mx} + sibling bonus {sib} + "
+                                              f"multiple-birth bonus {mb} x {float(nm[i]) if nm is not None else '<=9'} on {impl.iso(o)} (person {int(df['p_id'].iloc[i])})",
+                                              dict(kind="cap", date=impl.iso(o), paid="elterngeld_m", maximum=mx, person=df.iloc[i].to_dict()), True)
+                            break
         if len(res.samples) < 3:
             res.samples.append(dict(unit="corner population", date=impl.iso(o), rows=len(df), max_wage=float(df["bruttolohn_m"].max()), min_rental=float(df["eink_vermietung_m"].min())))
     for ob in out:
